@@ -516,3 +516,107 @@ Proof.
     destruct ((ce <? length vals)%nat && isg (nth ce vals 0)) eqn:Egc; simfin ce Hun.
 Qed.
 End Sim.
+(* ---------- iterating the simulation over the whole event list ---------- *)
+Section SimLoop.
+Variable isg : Z -> bool.
+Variables (evt vals : list Z).
+
+Fixpoint aloop (a : ast) (ce : nat) (rest : list Z) : ast :=
+  match rest with
+  | [] => a
+  | cd :: t => aloop (astep isg a cd (nth ce vals 0) (ce <? length vals)%nat) (S ce) t
+  end.
+
+Fixpoint nondecrZ (x : Z) (l : list Z) : Prop :=
+  match l with [] => True | y :: t => x <= y /\ nondecrZ y t end.
+
+Lemma skipn_cons_inv {A} (l : list A) : forall ce x t d, skipn ce l = x :: t ->
+  nth ce l d = x /\ skipn (S ce) l = t /\ (ce < length l)%nat.
+Proof.
+  induction l as [|y l IH]; intros [|ce] x t d H; simpl in *; try discriminate.
+  - inversion H; subst. repeat split. lia.
+  - destruct (IH ce x t d H) as [H1 [H2 H3]]. repeat split; auto. lia.
+Qed.
+
+Lemma sim_loop : forall rest ce s a, R evt vals ce s a -> skipn ce evt = rest -> (ce <= length evt)%nat ->
+  (length vals + 1 = length evt)%nat -> nondecrZ (apd a) rest ->
+  R evt vals (length evt) (gen_loop (map isg vals) s ce rest) (aloop a ce rest).
+Proof.
+  induction rest as [|cd t IH]; intros ce s a HR Hsk Hce Hlen Hnd; simpl.
+  - assert (length evt <= ce)%nat.
+    { pose proof (skipn_length ce evt) as Hl. rewrite Hsk in Hl. simpl in Hl. lia. }
+    assert (ce = length evt) by lia. subst ce. exact HR.
+  - destruct (skipn_cons_inv evt ce cd t 0 Hsk) as [Hnth [Hsk' Hlt]].
+    destruct Hnd as [Hle Hnd].
+    pose proof (sim_step isg evt vals ce s a HR Hlt Hlen ltac:(rewrite Hnth; exact Hle)) as HR'.
+    rewrite Hnth in HR'.
+    apply IH; auto.
+    destruct HR' as [_ [_ [_ [_ [_ [_ [_ [Hes _]]]]]]]].
+    replace (S ce - 1)%nat with ce in Hes by lia. rewrite Hnth in Hes. rewrite <- Hes. exact Hnd.
+Qed.
+
+(* the abstract loop indexed by event position = the fold over (dump, value) pairs + terminator *)
+Lemma aloop_arun N : forall l ce a, skipn ce vals = map snd l ->
+  aloop a ce (map fst l ++ [N]) = astep isg (arun isg a l) N 0 false.
+Proof.
+  induction l as [|[d v] l IH]; intros ce a Hsk; simpl.
+  - assert (length vals <= ce)%nat.
+    { pose proof (skipn_length ce vals) as Hl. rewrite Hsk in Hl. simpl in Hl. lia. }
+    rewrite nth_overflow by lia. replace (ce <? length vals)%nat with false; [reflexivity|].
+    symmetry. apply Nat.ltb_ge. lia.
+  - simpl in Hsk. destruct (skipn_cons_inv vals ce v (map snd l) 0 Hsk) as [Hnth [Hsk' Hlt]].
+    rewrite Hnth. replace (ce <? length vals)%nat with true by (symmetry; apply Nat.ltb_lt; exact Hlt).
+    apply IH. exact Hsk'.
+Qed.
+End SimLoop.
+Lemma nondecrZ_map x (l : list (Z * Z)) N : nondecr x l -> Forall (fun e => fst e < N) l -> x <= N ->
+  nondecrZ x (map fst l ++ [N]).
+Proof.
+  revert x. induction l as [|[d v] l IH]; intros x Hn Hf Hx; simpl.
+  - split; [exact Hx|exact Logic.I].
+  - destruct Hn as [Hd Hn]. inversion Hf; subst. simpl in *. split; [exact Hd|]. apply IH; auto. lia.
+Qed.
+
+(* the index-based model of _single_event_per_dump (nth / upd on the mutated events array) yields exactly the
+   (value, final dump) pairs of the cached-look-up machine *)
+Lemma gen_index_eq (isg : Z -> bool) v0 (l : list (Z * Z)) N :
+  nondecr 0 l -> Forall (fun e => fst e < N) ((0, v0) :: l) ->
+  let evt := 0 :: map fst l ++ [N] in
+  let vals := v0 :: map snd l in
+  let ce := single_event_per_dump evt (map isg vals) in
+  map (fun i => (nth i vals 0, nth i (snd ce) 0)) (fst ce) = afinal isg v0 l N.
+Proof.
+  intros Hn Hf evt vals. unfold single_event_per_dump. cbv zeta.
+  set (g := map isg vals). set (s0 := mk_gst 0 0 evt []).
+  assert (Hs : gen_loop g s0 0 evt = gen_loop g s0 1 (map fst l ++ [N])).
+  { change (gen_loop g s0 0 (0 :: (map fst l ++ [N])) = gen_loop g s0 1 (map fst l ++ [N])).
+    simpl gen_loop. f_equal. unfold gstep. simpl.
+    destruct (isg v0); reflexivity. }
+  rewrite Hs. simpl fst. simpl snd.
+  set (a0 := mk_ast 0 v0 true v0 0 []).
+  assert (HR : R evt vals 1 s0 a0).
+  { unfold R, s0, a0. cbn [pw pd evm out ad av alast lv apd aout]. simpl.
+    repeat split; try lia; try reflexivity; constructor. }
+  inversion Hf as [|? ? H0N Hf']; subst. simpl in H0N.
+  pose proof (sim_loop isg evt vals (map fst l ++ [N]) 1 s0 a0 HR eq_refl) as HL.
+  assert (Hlen : (length vals + 1 = length evt)%nat).
+  { unfold vals, evt. simpl. rewrite app_length, !map_length. simpl. lia. }
+  specialize (HL ltac:(unfold evt; simpl; lia) Hlen (nondecrZ_map 0 l N Hn Hf' ltac:(simpl; lia))).
+  destruct HL as [_ [_ [_ [_ [_ [_ [_ [_ [_ [_ [Hp _]]]]]]]]]]].
+  unfold prs in Hp. fold g in Hp. rewrite Hp.
+  rewrite (aloop_arun isg vals N l 1 a0 eq_refl). reflexivity.
+Qed.
+
+(* THE generator theorem, about the index-based model *)
+Lemma generator_rule (isg : Z -> bool) v0 (l : list (Z * Z)) N :
+  nondecr 0 l -> Forall (fun e => fst e < N) ((0, v0) :: l) ->
+  let evt := 0 :: map fst l ++ [N] in
+  let vals := v0 :: map snd l in
+  let ce := single_event_per_dump evt (map isg vals) in
+  let out := map (fun i => (nth i vals 0, nth i (snd ce) 0)) (fst ce) in
+  (forall k, 0 <= k < N -> lookupd 0 out k = ivalue isg ((0, v0) :: l) k) /\
+  Forall (fun e => 0 <= snd e < N) out /\ ssorted (map snd out) /\ exists v t, out = (v, 0) :: t.
+Proof.
+  intros Hn Hf evt vals ce out. unfold out, ce, evt, vals.
+  rewrite (gen_index_eq isg v0 l N Hn Hf). apply afinal_rule; assumption.
+Qed.
